@@ -136,6 +136,12 @@ pub(crate) fn restore_disclosure(
             if let Some(sd) = map.get_mut("_sd") {
                 if sd_contains_digest(sd, disclosure.digest())? {
                     if let Some(key) = disclosure.key() {
+                        if map.contains_key(key) {
+                            return Err(Error::SDJWTRejected(format!(
+                                "claim name {} of disclosure already exists",
+                                key
+                            )));
+                        }
                         let path = format_path(&current_path, key);
                         disclosure_paths.push(DisclosurePath::new(&path, disclosure));
                         map.insert(key.to_string(), disclosure.value().clone());
